@@ -34,16 +34,23 @@ SHAPES = {
 }
 
 
-def make_spec(shape, strategy):
+def make_spec(shape, strategy, variant=None):
+    """variant (shape 'articles' only): 'dynamic' = Article.tags is lazy='dynamic'; 'o2o' = Article.tags is a
+    scalar (uselist=False, one-to-one); 'nv' = a NON-versioned Comment class related to Article"""
     if shape == 'articles':
-        spec = envs.shape_articles({'strategy': strategy})
+        spec = envs.shape_articles({'strategy': strategy}, with_comment=(variant == 'nv'))
+        rel = spec['classes'][1]['rels'][0]
+        if variant == 'dynamic':
+            rel['backref_kw'] = {'lazy': 'dynamic'}
+        elif variant == 'o2o':
+            rel['backref_kw'] = {'uselist': False}
     else:
         spec = envs.shape_m2m({'strategy': strategy})
     spec['shape'] = shape
     return spec
 
 
-def read_relationships(env, shape):
+def read_relationships(env, shape, variant=None):
     """every reflected relationship of every version object -> canonical answers"""
     import sqlalchemy_continuum as sc
     info = SHAPES[shape]
@@ -55,11 +62,24 @@ def read_relationships(env, shape):
             val = getattr(v, attr)
             if kind == 'm2o':
                 ans = None if val is None else [[val.id], val.transaction_id]
+            elif variant == 'dynamic' and kind == 'o2m':
+                ans = sorted([[x.id], x.transaction_id] for x in val.all())      # a Query (lazy='dynamic')
+            elif variant == 'o2o' and kind == 'o2m':
+                ans = [] if val is None else [[[val.id], val.transaction_id]]    # a scalar (uselist=False)
             else:
                 ans = sorted([[x.id], x.transaction_id] for x in val)
             out.append({'owner': owner, 'attr': attr, 'kind': kind, 'remote': remote, 'pk': [v.id], 'tx': v.transaction_id,
                         'fk': (None if getattr(v, 'article_id', None) is None else [v.article_id]) if kind == 'm2o' else None,
                         'ans': ans})
+    if variant == 'nv':
+        # non-versioned target: the version shows the CURRENT related rows
+        V = sc.version_class(env.classes['Article'])
+        raw = env.conn.connection.dbapi_connection
+        for v in s.query(V).order_by(V.id, V.transaction_id).all():
+            got = sorted(c.id for c in v.comments)
+            cur = sorted(r[0] for r in raw.execute('SELECT id FROM comment WHERE article_id = ?', (v.id,)))
+            out.append({'owner': 'Article', 'attr': 'comments', 'kind': 'nv', 'remote': 'Comment', 'pk': [v.id],
+                        'tx': v.transaction_id, 'fk': None, 'ans': got, 'current': cur})
     s.rollback()
     s.close()
     return out
@@ -95,7 +115,7 @@ class C04(Prop):
     chunk = 2
     rule = ('(a) random contents of parent, child and association version tables (entities deleted and re-created, children '
             'moved between parents, links removed and re-added, NULL foreign keys) written directly -> every reflected '
-            'relationship (one-to-many, many-to-one, many-to-many from both sides) of every version object read with the '
+            'relationship (one-to-many - also declared lazy=dynamic or as a one-to-one scalar -, many-to-one, many-to-many from both sides; a non-versioned target class shows its current rows) of every version object read with the '
             'real code, compared with the Lean criteria and judged by C04.Holds; (b) session programs that create, re-point, '
             'unlink and delete related entities across transactions -> every relationship of every version compared with '
             'the reconstruction from the per-commit SQL snapshots; non-trivial = a related entity has >= 2 versions and '
@@ -104,7 +124,8 @@ class C04(Prop):
                    'arbitrary custom primaryjoin rewriting (VersionExpressionReflector) is exercised only through the '
                    'standard foreign-key joins of the shapes used',
                    'single-column keys for relationship endpoints']
-    needs_tags = ['kind:tables', 'kind:history', 'shape:articles', 'shape:m2m', 'deleted_remote', 'moved_child', 'relinked']
+    needs_tags = ['kind:tables', 'kind:history', 'shape:articles', 'shape:m2m', 'deleted_remote', 'moved_child', 'relinked',
+                  'variant:dynamic', 'variant:o2o', 'variant:nv', 'nv_related_rows', 'o2o_unique']
 
     def counts(self, tier):
         return (90, 50) if tier == 'quick' else (3000, 1500)
@@ -139,20 +160,26 @@ class C04(Prop):
                 for a, t, tx in links[:rng.choice([1, 2, 4, 6, 8])]:
                     arows.append([0, [a, t], tx, rng.choice([0, 0, 2])])
                 arows.sort()
-            yield {'kind': 'tables', 'shape': shape, 'strategy': strategy, 'rows': rows, 'arows': arows}
+            variant = rng.choice([None, None, 'dynamic', 'o2o']) if shape == 'articles' else None
+            yield {'kind': 'tables', 'shape': shape, 'strategy': strategy, 'rows': rows, 'arows': arows, 'variant': variant}
         for _ in range(nh):
             shape = rng.choice(['articles', 'm2m'])
-            spec = make_spec(shape, rng.choice(['validity', 'subquery']))
+            variant = rng.choice([None, 'dynamic', 'o2o', 'nv']) if shape == 'articles' else None
+            spec = make_spec(shape, rng.choice(['validity', 'subquery']), variant)
             prog = proggen.random_program(rng, spec, rng.choice([15, 25, 40]),
-                                          weights={'setrel': 7, 'link': 7, 'unlink': 5, 'commit': 7, 'del': 3, 'flush': 2,
-                                                   'rollback': 0, 'set': 3})
-            yield {'kind': 'history', 'shape': shape, 'spec': spec, 'program': prog, 'autoflush': rng.random() < 0.3}
+                                          weights={'setrel': 7, 'link': 7 if variant != 'o2o' else 0, 'unlink': 5 if variant != 'o2o' else 0,
+                                                   'commit': 7, 'del': 3, 'flush': 2, 'rollback': 0, 'set': 3})
+            if variant == 'nv':
+                prog = [['add', 'Article', [1], {'name': 1}], ['add', 'Comment', [1], {'text': 1}],
+                        ['setrel', 'Comment', [1], 'article', 'Article', [1]], ['commit']] + prog
+            yield {'kind': 'history', 'shape': shape, 'spec': spec, 'program': prog, 'autoflush': rng.random() < 0.3,
+                   'variant': variant}
 
     # -- real code ------------------------------------------------------------------------------
     def run_case(self, case):
         if case['kind'] == 'tables':
             import sqlalchemy_continuum as sc
-            env = envs.Env(make_spec(case['shape'], case['strategy']))
+            env = envs.Env(make_spec(case['shape'], case['strategy'], case.get('variant')))
             try:
                 for cname, cols in SHAPES[case['shape']]['classes'].items():
                     vt = sc.version_class(env.classes[cname]).__table__
@@ -168,7 +195,7 @@ class C04(Prop):
                     for _, link, tx, op in case['arows']:
                         env.conn.execute(at.insert().values(article_id=link[0], tag_id=link[1], transaction_id=tx, operation_type=op))
                 env.conn.commit()
-                return {'answers': read_relationships(env, case['shape']), 'rows': case['rows'], 'arows': case['arows']}
+                return {'answers': read_relationships(env, case['shape'], case.get('variant')), 'rows': case['rows'], 'arows': case['arows']}
             finally:
                 env.close()
         else:
@@ -179,7 +206,7 @@ class C04(Prop):
                 if obs.get('error'):
                     return {'error': obs['error'], 'answers': [], 'rows': {}, 'arows': [], 'snapshots': []}
                 rows, arows = dump_version_rows(env, case['shape'])
-                answers = read_relationships(env, case['shape'])
+                answers = read_relationships(env, case['shape'], case.get('variant'))
                 snaps = [{'txs': m['txs'], 'live': m['live'], 'links': m['links']} for m in obs['markers'] if 'commit' in m['label']]
                 return {'answers': answers, 'rows': rows, 'arows': arows, 'snapshots': snaps}
             finally:
@@ -197,6 +224,8 @@ class C04(Prop):
         sel = {names[0]: 't', names[1]: 't2'}
         rel = {(o, a): (k, r, e) for o, a, k, r, e in SHAPES[shape]['rels']}
         for a in obs['answers']:
+            if a['kind'] == 'nv':
+                continue
             kind, remote, extra = rel[(a['owner'], a['attr'])]
             w = sel[remote]
             if kind == 'm2o':
@@ -294,8 +323,29 @@ class C04(Prop):
             out.tags.append('relinked')
         out.nontrivial = sum(1 for v in per.values() if len(v) >= 2) >= 2
         out.key = json.dumps(case, sort_keys=True, default=str)
-        for a, ans in zip(obs['answers'], answers):
+        variant = case.get('variant')
+        if variant:
+            out.tags.append('variant:' + variant)
+        nv = [a for a in obs['answers'] if a['kind'] == 'nv']
+        for a in nv:
+            # non-versioned target: exactly the current related rows
+            if a['ans'] != a['current']:
+                out.violations.append({'clause': 'C04.nonversioned_target', 'detail': {'version': [a['owner'], a['pk'], a['tx']],
+                                                                                      'implementation': a['ans'], 'current': a['current']}})
+            if a['current']:
+                out.tags.append('nv_related_rows')
+        for a, ans in zip([x for x in obs['answers'] if x['kind'] != 'nv'], answers):
             verdict, model = ans.split(' | ')
+            if variant == 'o2o' and a['kind'] == 'o2m':
+                # one-to-one: the scalar must be ONE of the versions the criteria select (none iff there is none)
+                mset = [] if model == '-' else model.split(';')
+                impl1 = [] if not a['ans'] else ['%s:%d' % (tg.fmt_list(a['ans'][0][0]), a['ans'][0][1])]
+                if (not impl1) != (not mset) or (impl1 and impl1[0] not in mset):
+                    out.violations.append({'clause': 'C04.Holds.o2o', 'detail': {'version': [a['owner'], a['pk'], a['tx']], 'attr': a['attr'],
+                                                                                 'implementation': impl1, 'expected_one_of': mset}})
+                if len(mset) == 1:
+                    out.tags.append('o2o_unique')
+                continue
             if a['kind'] == 'm2o':
                 impl = 'N' if a['ans'] is None else '%s:%d' % (tg.fmt_list(a['ans'][0]), a['ans'][1])
             else:
@@ -311,6 +361,14 @@ class C04(Prop):
             exp = self.reference(case, obs)
             for a in obs['answers']:
                 k = (a['owner'], a['attr'], tuple(a['pk']), a['tx'])
+                if a['kind'] == 'nv':
+                    continue
+                if variant == 'o2o' and a['kind'] == 'o2m':
+                    if k in exp and ((not a['ans']) != (not exp[k]) or (a['ans'] and a['ans'][0] not in exp[k])):
+                        out.violations.append({'clause': 'C04.reference.o2o',
+                                               'detail': {'version': [a['owner'], a['pk'], a['tx']], 'attr': a['attr'],
+                                                          'implementation': a['ans'], 'reference_one_of': exp[k]}})
+                    continue
                 if k in exp and exp[k] != a['ans']:
                     out.violations.append({'clause': 'C04.reference.' + a['kind'],
                                            'detail': {'version': [a['owner'], a['pk'], a['tx']], 'attr': a['attr'],
